@@ -199,6 +199,9 @@ def _exc_name(e: BaseException) -> str:
 
 
 _CRIT_WRAPPERS: dict = {}
+# objectives (generator style "mutating user functions") that write into the start array of the run in progress: the recorder hands
+# the package a private copy of the start for them and publishes it in `_tls.x0_passed`
+PRIVATE_X0: dict = {}
 
 
 def _criterion_wrapper(v, kind):
@@ -248,6 +251,12 @@ class Run:
         kw = dict(self.kwargs)
         rec = self.rec
         fun, jac = kw["fun"], kw.get("jac")
+        _tls.x0_passed = None
+        if id(fun) in PRIVATE_X0 and isinstance(kw.get("x0"), np.ndarray):
+            kw["x0"] = np.array(kw["x0"], copy=True)
+            _tls.x0_passed = kw["x0"]
+            if len(PRIVATE_X0) > 20000:
+                PRIVATE_X0.clear()
 
         def f(x, *a):
             k = pkey(x)
